@@ -433,10 +433,8 @@ fn check_xf(c: &XfCase, st: &mut Stats) -> CheckResult {
     ensure!(skew_delta + size <= 65536 && c.trunc <= size, "harness: case outside the contract");
     let n = c.pos + size + 1;
     let mut buf = Buf::zeroed(n, c.blocks, 0);
+    crate::prims::fill_structured(&mut buf.data, c.seed);
     let mut rng = Xs::new(c.seed);
-    for blk in buf.data.iter_mut() {
-        rng.fill(blk);
-    }
     if c.which == Xform::Ifft {
         for i in c.pos + c.trunc..c.pos + size {
             for blk in buf.shard_mut(i) {
